@@ -1,7 +1,7 @@
 //! C09 — work and data taken from an untrusted repository are bounded.
 
 use crate::classify::{classify, variant, Class};
-use crate::engine::{block_on, Check, Outcome, Tier};
+use crate::engine::{block_on, Check, Outcome, Scratch, Tier};
 use crate::keys;
 use crate::prng::Rng;
 use crate::publisher::*;
@@ -55,6 +55,17 @@ pub struct Sc {
     pub roles: Vec<RoleDef>,
     /// file kind ("root", "timestamp", "snapshot", "targets" or a role name) -> hostile stream
     pub hostile: Vec<(String, Hostile)>,
+    /// version of the root the client ships in the judged cycle (1 = the oldest)
+    #[serde(default = "one")]
+    pub shipped: u64,
+    /// an earlier, clean cycle on the same datastore: (root version shipped then, newest root
+    /// version published then); leaves its trust state (incl. the last trusted root) behind
+    #[serde(default)]
+    pub prior: Option<(u64, u64)>,
+}
+
+fn one() -> u64 {
+    1
 }
 
 pub struct C09;
@@ -257,6 +268,23 @@ fn graph(r: &mut Rng) -> (Vec<String>, Vec<RoleDef>) {
     }
 }
 
+impl Sc {
+    /// a quarter of the scenarios get a shipped root above version 1 and/or an earlier cycle on
+    /// the same datastore
+    fn with_history(mut self, r: &mut Rng) -> Sc {
+        let newest = 1 + self.newer_roots.unwrap_or(12);
+        if r.chance(1, 4) {
+            self.shipped = 1 + r.below(newest.min(6));
+        }
+        if r.chance(1, 4) {
+            let then_newest = 1 + r.below(newest.min(8));
+            let then_shipped = 1 + r.below(then_newest.min(self.shipped));
+            self.prior = Some((then_shipped, then_newest));
+        }
+        self
+    }
+}
+
 impl Check for C09 {
     type Scenario = Sc;
     fn id(&self) -> &'static str {
@@ -282,7 +310,7 @@ impl Check for C09 {
         }
     }
     fn required_faults(&self, _t: Tier) -> Vec<&'static str> {
-        vec!["padded_stream", "endless_stream", "limit_below_size", "endless_root_chain", "delegation_cycle_entered", "delegated_role_larger_than_targets"]
+        vec!["padded_stream", "endless_stream", "limit_below_size", "endless_root_chain", "delegation_cycle_entered", "delegated_role_larger_than_targets", "earlier_cycle_left_trust_state"]
     }
     fn required_probes(&self, _t: Tier) -> Vec<&'static str> {
         vec!["stopped_at_bound", "root_updates_capped", "legitimate_at_exact_bound_accepted"]
@@ -327,7 +355,10 @@ impl Check for C09 {
             top_targets: r.usize_below(4),
             roles,
             hostile,
+            shipped: 1,
+            prior: None,
         }
+        .with_history(&mut r)
     }
     fn shrink(&self, sc: &Sc) -> Vec<Sc> {
         let mut v = Vec::new();
@@ -361,6 +392,12 @@ impl Check for C09 {
         }
         if sc.max_root_updates != 10 {
             v.push(Sc { max_root_updates: 10, ..sc.clone() });
+        }
+        if sc.prior.is_some() {
+            v.push(Sc { prior: None, ..sc.clone() });
+        }
+        if sc.shipped != 1 && sc.prior.map_or(true, |p| p.0 == 1) {
+            v.push(Sc { shipped: 1, ..sc.clone() });
         }
         if sc.top_targets > 0 {
             v.push(Sc { top_targets: 0, ..sc.clone() });
@@ -464,14 +501,44 @@ impl Check for C09 {
             request_bound + 5,
         );
         o.ev(format!(
-            "cfg consistent={} limits=({:?},{:?},{:?},{:?}) mru={} newer_roots={:?} pins=({},{}) top={:?}/{} roles={:?} hostile={:?}",
+            "cfg consistent={} limits=({:?},{:?},{:?},{:?}) mru={} newer_roots={:?} pins=({},{}) top={:?}/{} roles={:?} hostile={:?} shipped={} prior={:?}",
             sc.consistent, sc.lim_root, sc.lim_ts, sc.lim_snap, sc.lim_tg, sc.max_root_updates, sc.newer_roots, sc.ts_pins_len, sc.snap_pins_len,
-            sc.top_delegates, sc.top_targets, sc.roles.iter().map(|r| (r.name.as_str(), r.delegates.clone(), r.n_targets)).collect::<Vec<_>>(), sc.hostile
+            sc.top_delegates, sc.top_targets, sc.roles.iter().map(|r| (r.name.as_str(), r.delegates.clone(), r.n_targets)).collect::<Vec<_>>(), sc.hostile, sc.shipped, sc.prior
         ));
         let t2 = transport.clone();
-        let shipped = b.shipped.clone();
+        let newest = sc.newer_roots.map(|n| 1 + n);
+        if sc.shipped == 0 || newest.is_some_and(|n| sc.shipped > n) || sc.prior.is_some_and(|(a, b2)| a == 0 || a > b2 || a > sc.shipped || newest.is_some_and(|n| b2 > n)) {
+            o.harness("inconsistent history in scenario");
+            return o;
+        }
+        let shipped = if sc.shipped == 1 { b.shipped.clone() } else { root_bytes(sc, sc.shipped) };
+        let scratch = Scratch::new();
+        let ds = scratch.dir("datastore");
+        // ---- an earlier clean cycle on the same datastore (default limits, honest mirror)
+        if let Some((then_shipped, then_newest)) = sc.prior {
+            let files = b.files.clone();
+            let sc3 = sc.clone();
+            let prior_transport = SimTransport::new(move |r| {
+                if r.base != Base::Metadata {
+                    return Resp::not_found();
+                }
+                if let Some(v) = r.rel.strip_suffix(".root.json").and_then(|v| v.parse::<u64>().ok()) {
+                    return if v <= then_newest { Resp::whole(&root_bytes(&sc3, v)) } else { Resp::not_found() };
+                }
+                files.get(&r.rel).map_or(Resp::not_found(), |x| Resp::whole(x))
+            });
+            let then_root = root_bytes(sc, then_shipped);
+            let ds2 = ds.clone();
+            let prior_ok = block_on(async move { world::load(&then_root, prior_transport, Some(&ds2), world::LoadOpts::default()).await.is_ok() });
+            o.ev(format!("prior cycle shipped={then_shipped} newest={then_newest} ok={prior_ok}"));
+            if !prior_ok && !b.cyclic {
+                o.harness("the earlier clean cycle failed");
+                return o;
+            }
+        }
+        let ds3 = ds.clone();
         let res = block_on(async move {
-            match world::load(&shipped, t2, None, world::LoadOpts { limits: Some(limits), enforcement: tough::ExpirationEnforcement::Safe }).await {
+            match world::load(&shipped, t2, Some(&ds3), world::LoadOpts { limits: Some(limits), enforcement: tough::ExpirationEnforcement::Safe }).await {
                 Ok(repo) => Ok(repo.root().signed.version.get()),
                 Err(e) => Err((classify(&e), variant(&e))),
             }
@@ -547,7 +614,7 @@ impl Check for C09 {
         let size_ok = |kind: &str, size: usize| (size as u64) <= bound_of(kind);
         let legit = sc.hostile.is_empty()
             && !b.cyclic
-            && sc.newer_roots.is_some_and(|n| n < sc.max_root_updates)
+            && sc.newer_roots.is_some_and(|n| (1 + n).saturating_sub(sc.shipped) < sc.max_root_updates)
             && size_ok("root", b.root_size)
             && size_ok("timestamp", b.sizes["timestamp"])
             && size_ok("snapshot", b.sizes["snapshot"])
@@ -600,6 +667,13 @@ impl Check for C09 {
         if b.cyclic && log.iter().any(|l| sc.roles.iter().any(|r| r.name == kind_of(&l.rel))) {
             o.fault("delegation_cycle_entered");
             fired = true;
+        }
+        if sc.prior.is_some() {
+            o.fault("earlier_cycle_left_trust_state");
+            fired = true;
+        }
+        if sc.shipped > 1 {
+            o.probe("shipped_root_newer_than_first");
         }
         o.nontrivial = fired;
         o
